@@ -176,6 +176,9 @@ impl Scene for S {
         ops.push(self.submit(M_STOP));
         // keep the handles until the (possibly fire-and-forget) probes have been handled
         ops.push(Op::Sleep(3));
+        // ... and while they are kept, the weak handles upgrade - also now that the actor has
+        // stopped itself (what keeps a handle upgradable is the strong handles, nothing else)
+        ops.extend([Op::UpgradeProbe(H::WAddr(0)), Op::UpgradeProbe(H::WSnd(0)), Op::UpgradeProbe(H::WCal(0))]);
         exec.spawn_client(0, run_client(0, h, ops));
         exec.spawn_client(1, run_client(1, extra, vec![Op::Yield, Op::Drop(H::Addr(0))]));
     }
